@@ -72,6 +72,9 @@ def obligations(tier):
         Ob('load_slices_end_to_end', 'ch', 'file with 3 data records of 1..2, 2..3, 1..2 frames; every slice (step 1..3), every non-empty subset of the two value channels, indirect X on/off, '
            'TIF on/off, with/without an earlier load, up/down log, frame spacing declared in X units or in FEET',
            e2e, harness='C06_logpass', func='load_slices', timeout=2400, parts=32, stubs=['SymFile', 'PyStruct'], classify=_classify_load, tiers=('thorough',)),
+        Ob('two_log_passes_normal_and_alternate_data', 'ch', 'one logical file with a DFSR for normal data (3 channels) and a DFSR for alternate data (2 channels), 0..2 normal records between them, '
+           'then every sequence of 4 records of either type, TIF on/off: both log passes indexed (frames, first X, frame -> record map) and loaded (all frames; a stepped slice of one channel)',
+           e2e, harness='C06_logpass', func='two_log_passes', timeout=280 if q else 900, stubs=['SymFile', 'PyStruct']),
         Ob('load_wide_channel_subsets', 'ch', 'file with 12 channels (direct X) or 11 (implied X), 2 data records of 2 frames; EVERY non-empty channel subset (12-bit mask), step 1..2: '
            'values in ascending channel order and X of every loaded frame',
            e2e, harness='C06_logpass', func='load_wide_subsets', timeout=280 if q else 1200, parts=32, stubs=['SymFile', 'PyStruct']),
